@@ -8,6 +8,24 @@ from collections import defaultdict, deque
 TRY_BRANCH = 'std::ops::Try::branch'
 FROM_RESIDUAL = 'std::ops::FromResidual::from_residual'
 
+GENERIC_TRAITS = [(re.compile(r), t) for r, t in [
+    (r'^syn::(parse::ParseBuffer::(<.*>::)?(parse|call|parse_terminated|fork)$|parse_str|parse2|parse::Parser|parse_file|punctuated::Punctuated)', ['syn::parse::Parse']),
+    (r'^syn::parse::ParseBuffer::', []),
+    (r'fmt::rt::Argument::<?.*new_display|ToString::to_string|fmt::Display', ['std::fmt::Display']),
+    (r'fmt::rt::Argument::<?.*new_debug|fmt::Debug', ['std::fmt::Debug']),
+    (r'Iterator::collect|FromIterator::from_iter|Extend::extend|iter::Iterator::unzip|Iterator::partition', ['std::iter::FromIterator', 'std::iter::Extend', 'std::default::Default']),
+    (r'convert::Into::into|convert::From::from|Option::<T>::map$|Result::<T, E>::map$', ['std::convert::From', 'std::convert::Into']),
+    (r'unwrap_or_default|or_default|Default::default|mem::take', ['std::default::Default']),
+    (r'str::<impl str>::parse|FromStr::from_str', ['std::str::FromStr']),
+    (r'AsRef::as_ref', ['std::convert::AsRef']),
+    (r'quote::|ToTokens', ['quote::ToTokens', 'quote::IdentFragment', 'std::fmt::Display']),
+    (r'IntoIterator::into_iter', ['std::iter::IntoIterator']),
+    (r'HashMap::|HashSet::|hash_map::|hash_set::|slice::<impl \[T\]>::(sort|contains|binary)|cmp::|Vec::<T, A>::(clone|dedup|contains)|to_vec|to_owned|Clone::clone|Option::<T>::(cloned|copied|is_some_and|unwrap|expect|as_ref|as_deref|is_some|is_none)', []),
+    (r'^std::(vec::Vec|boxed::Box|option::Option|result::Result|slice|iter::Iterator::(map|filter|enumerate|zip|chain|find|any|all|fold|flat_map|filter_map|rev|next|copied|cloned))', []),
+    (r'^anyhow::', ['std::fmt::Display', 'std::fmt::Debug']),
+]]
+
+
 # ---------------------------------------------------------------------------------------
 class Program:
     def __init__(self, path):
@@ -81,13 +99,28 @@ class Program:
                     if tgt:
                         cg[fn.id].add((tgt, 'call'))
                     elif not c.get('rlocal') and not c.get('local'):
-                        # external (generic) callee: may call back into trait impls of local types
-                        # that occur in its generic arguments (Display::fmt, Parse::parse, …)
+                        # external (generic) callee: may call back into trait impls of local types that
+                        # occur in its generic arguments.  Where the callee tells which trait it needs, the
+                        # edge is specific ('generic-impl'); otherwise every non-derived trait impl of the
+                        # type is a possible target ('generic-any', used for reachability only).
+                        pth = c.get('rpath') or c['path']
+                        want = None
+                        for rx, tr in GENERIC_TRAITS:
+                            if rx.search(pth):
+                                want = tr
+                                break
                         for ga in c.get('gargs', []):
                             for lt in local_types:
-                                if lt in ga:
+                                if re.search(re.escape(lt) + r'(?![A-Za-z0-9_:])', ga):
                                     for mid in self.impl_methods.get(lt, []):
-                                        cg[fn.id].add((mid, 'generic-impl'))
+                                        m = self.fns[mid]
+                                        if m.raw.get('derived'):
+                                            continue
+                                        tr = m.raw.get('impl_trait', '')
+                                        if want is not None and any(tr.startswith(w) for w in want):
+                                            cg[fn.id].add((mid, 'generic-impl'))
+                                        elif want is None:
+                                            cg[fn.id].add((mid, 'generic-any'))
                     elif c.get('local') and c['path'] not in self.fns and c.get('trait'):
                         # unresolved call of a local trait method: all impls
                         pass
@@ -510,7 +543,7 @@ class Fn:
             memo[l] = r
             return r
         ds = self.defs().get(l, [])
-        if len(ds) == 1 and l not in self.mut_borrowed():
+        if len(ds) == 1 and l not in self.mut_borrowed() and not (1 <= l <= self.nargs):
             memo[l] = ('var', l, self.names.get(l, '_%d' % l))      # cycle guard
             r = self.expr_of_def(ds[0], depth + 1, seen)
             memo[l] = r
@@ -885,6 +918,18 @@ def show(e, names=True, depth=0):
         return 'overflowed(%s)' % S(e[1])
     if k == 'downcast':
         return '(%s as %s)' % (S(e[1]), e[2])
+    if k in ('is_none', 'is_some', 'fails', 'succeeds'):
+        return '%s(%s)' % (k, S(e[1]))
+    if k == 'variant':
+        return 'is_%s(%s)' % (e[2], S(e[1]))
+    if k == 'eqlit':
+        return '%s == %s' % (S(e[1]), e[2])
+    if k == 'upvar':
+        return 'upvar%d' % e[1]
+    if k == 'repeat':
+        return '[%s; %s]' % (S(e[1]), e[2])
+    if k == 'unknown':
+        return '?%s' % (e[1],)
     return '%s' % (k,)
 
 
